@@ -1057,6 +1057,9 @@ add('c06-benign-locals-renamed', 'C06', 'benign', [(RANGES, """def _shape(n1, n2
     cols = maxcol if n1 == 0 and n2 == maxcol else (n2 - n1 + 1)
     return rows, cols""")])
 
+add('c20-time-minutes-per-day', 'C20', 'break', [(DATE, """        v = hour / 24 + minute / 1440 + second / 86400""", """        v = hour / 24 + minute / 1400 + second / 86400""")], expect='C20.time')
+add('c20-n2time-hours-not-wrapped', 'C20', 'break', [(DATE, """    return hours % 24, mins, int(round(secs - 1.1E-6, 0))""", """    return hours, mins, int(round(secs - 1.1E-6, 0))""")], expect='C20.time')
+
 if __name__ == '__main__':
     here = os.path.dirname(os.path.abspath(__file__))
     ids = [v['id'] for v in V]
